@@ -461,6 +461,27 @@ func checkMultiCase(c multiCase, rec *Rec) error {
 			return err
 		}
 	}
+	// the decoded graphs are independent values: growing and editing each one in turn leaves all the others as decoded
+	models := make([]*oracle.G, len(out))
+	for i, s := range c.Gs {
+		models[i] = s.Model()
+	}
+	for i := range out {
+		nb := []int{}
+		for v := 0; v < out[i].N(); v += 2 {
+			nb = append(nb, v)
+		}
+		if p := try(func() { out[i].AddVertex(nb); out[i].AddVertex([]int{out[i].N() - 1}) }); p != nil {
+			return fmt.Errorf("AddVertex on graph %d of MulticodeDecodeMultiple(%v) panicked: %v", i, clipBytes(stream), p)
+		}
+		models[i].AddVertex(nb)
+		models[i].AddVertex([]int{models[i].N - 1})
+		for j := range out {
+			if err := sameAs(fmt.Sprintf("graph %d of MulticodeDecodeMultiple(%v) after graph %d was grown by two vertices", j, clipBytes(stream), i), out[j], models[j]); err != nil {
+				return err
+			}
+		}
+	}
 	return nil
 }
 
